@@ -12,7 +12,19 @@ Decided structurally:
                              entries listed from it; all mutating effects of delete_layer are inside the
                              layer's path classes
   R3 completeness            delete_layer removes DIR, TOML and the SBOM file of every format
-Not decided: TOCTOU races between the type test and the operation; kernel semantics.
+  R2 sbom-path / recreate    the SBOM path constructor the path classes rely on really is join(dir, name ++ ".sbom." ++ one distinct
+                             suffix per format) (no extension *replacing*); every mutating effect of the public layer entry
+                             points on the executions that create / recreate the layer (incl. read_layer's normalisation and the
+                             writers of the create half) stays inside the layer's path classes
+  R4 permission fixing       every directory listing on the delete path is preceded by a CHMOD of the same directory (same
+                             function, combinator receiver, helper, or every call site) giving the owner rwx; std's
+                             remove_dir_all (no permission fixing) is not used on the layer
+  R5 recreate decisions      in the functions that branch on RestoredLayerAction / InvalidMetadataAction / ExistingLayerStrategy /
+                             MetadataMigration: every way from the "throw it away" edge to a successful return runs checked calls
+                             whose MUST effects (entry terms) remove DIR, TOML and every SBOM format of this layer; uncached_layer's
+                             callbacks are the constant DeleteLayer
+Not decided: TOCTOU races between the type test and the operation; kernel semantics; non-unix cfg branches; which error
+kinds the NotFound-tolerant wrapper swallows (C12).
 
 The obligations are stated on effects and path classes, not on the recursive spelling (C11_helpers):
   * "the remover" is every function that applies CHMOD / LIST to a path it received, itself or through the functions
@@ -120,6 +132,8 @@ def run(ctx, rep):
     rep.rule('R1b', 'recursion into children only under the entry\'s own no-follow is_dir(); other entries are unlinked')
     rep.rule('R2', 'mutating effects of the remover stay on its argument / listed entries; delete_layer stays inside the layer')
     rep.rule('R3', 'delete_layer removes DIR, TOML and every SBOM format file')
+    rep.rule('R4', 'permission fixing: a directory is made accessible (owner rwx) before it is listed; no std remove_dir_all on the layer')
+    rep.rule('R5', 'every decision of the layer APIs to throw the existing layer away is followed by a complete, checked deletion of that layer')
     rep.not_decided = ['TOCTOU races between the type test and the operation', 'kernel symlink semantics']
     from . import layer_roles
     ROLES = layer_roles.roles(prog, sl0)
@@ -231,3 +245,20 @@ def run(ctx, rep):
     rep.check(has_dir, 'R3', 'delete_layer/DIR', where, 'layer directory removed on every success path', 'layer directory is not always removed')
     rep.check(has_toml, 'R3', 'delete_layer/TOML', where, 'layer TOML removed on every success path', 'layer TOML is not always removed')
     rep.check(sb_ok, 'R3', 'delete_layer/SBOM', where, 'SBOM file of every format removed', 'SBOM files are not removed for every format')
+
+    H.sbom_path_shape(prog, sl0, LayerPaths.sbom_path_fn, rep)
+
+    # ---- R5: every recreate decision of the public layer APIs runs the complete deletion ---------------------------
+    H.recreate_decisions(prog, sl, E, EM, rep, lambda is_ld, is_ln: H.TreePaths(sl, is_ld, is_ln))
+    H.uncached_always_deletes(prog, sl0, rep)
+
+    # ---- R4: permission fixing ------------------------------------------------------------------------------------
+    n_list = H.chmod_before_list(prog, sl, E, lib, rep)
+    rep.check(n_list >= 1, 'R4', 'chmod-before-list/subjects', where, '%d directory listing(s) on the delete path' % n_list,
+              'no directory listing found on the delete path: the rule lost its subjects')
+    H.chmod_modes(prog, sl, lib, rep)
+    for e in E.expand(dl, 'may'):
+        if e.kind == 'REMOVE_TREE' and LD.inside_layer(LD.classify(e.path)):
+            rep.violated('R4', 'delete_layer/std-remove-dir-all', e.where(),
+                         'std::fs::remove_dir_all does not fix permissions: a nested read-only or non-executable directory makes '
+                         'the deletion of the layer fail (%s)' % vstr(e.path)[:100])
